@@ -166,9 +166,24 @@ def unmodelled_writes(path, roots=("find_relationship_path",)):
     return found
 
 
+def add_model_invalidates(path):
+    """add_model must mark the adjacency dirty UNCONDITIONALLY (a top-level `self._adjacency_dirty = True`): a model can enter the join graph
+    through its own relationships, as another model's target, or as the junction of a many_to_many -- the cache invariant of C15/C19
+    (cache = not-built or = build_adjacency(models)) relies on every registration invalidating it"""
+    mod = ast.parse(open(path).read())
+    cls = next(n for n in mod.body if isinstance(n, ast.ClassDef) and n.name == "SemanticGraph")
+    fn = next(f for f in cls.body if isinstance(f, ast.FunctionDef) and f.name == "add_model")
+    for s in fn.body:
+        if isinstance(s, ast.Assign) and len(s.targets) == 1 and is_self_attr(s.targets[0], "_adjacency_dirty") and isinstance(s.value, ast.Constant) and s.value.value is True:
+            return True
+    return False
+
+
 def program(repo):
     import os
     path = os.path.join(repo, "sidemantic/core/semantic_graph.py")
+    if not add_model_invalidates(path):
+        raise Unsupported("add_model does not unconditionally invalidate the adjacency cache (no top-level `self._adjacency_dirty = True`)")
     extra = unmodelled_writes(path)
     if extra:
         raise Unsupported("planning call writes state the model does not know: " + ", ".join("self.%s in %s (line %d)" % e for e in extra[:4]))
